@@ -10,6 +10,9 @@ Workload: the shared seeded corpus (vf/gen_schema.py, same schemas as C01 looks 
 type-zoo schemas (vf/c02_extras.py) + deterministic probes of open findings (vf/c02_probes.py).
      Every schema's names are also asked for the way an application / the Part 21 reader does (vf/c02_naming.py:
      FindSchema / FindType / FindEntity / ObjCreate with the declared name, one Part 21 instance per entity keyword).
+Aggregate bounds of every kind (literal, ?, CONSTANT, arithmetic, function call, attribute of the instance) in both
+positions for every aggregate kind: vf/c02_bounds.py (bound kinds / values / expression texts of the dictionary, and
+Bound1Runtime / Bound2Runtime for instances created through the registry with several value tuples).
 Workload additions: identifier-shape matrix (vf/c02_naming.py) and the optional / unique / derived / inverse flag matrix
 of attribute descriptors (vf/c02_flags.py; UNIQUE rules also in the re-declaration matrices of vf/c02_redecl.py).
 """
@@ -21,6 +24,7 @@ from .. import build, run, gen_schema, probes, p21fam
 from .. import c02_model, c02_acc, c02_extras, c02_naming, c02_flags
 from .. import c02_probes   # noqa: F401  (registers the probes and their masks)
 from .. import c02_redecl   # (registers the explicit re-declaration matrix probe)
+from .. import c02_bounds   # aggregate-bound matrix (CONSTANT / function / attribute-dependent bounds) + its two probes
 
 FLAVOUR = 'san'
 AVOID_SCHEMA = probes.masked_schema_features('C02')
@@ -238,6 +242,9 @@ def judge(chk, case, env):
         log = case.fail.get('err', '') or ''
         if st == 'exp2cxx':
             sk = run.san_kind(log) or ('exit status %s' % case.fail.get('rc'))
+            pes = sorted(set(re.findall(r'--ERROR (PE\d+):', log)))
+            if not run.san_kind(log) and pes:
+                sk += ', diagnostics %s' % ' '.join(pes[:4])      # which rules of the front end refused the schema
             found.append(('build|exp2cxx|%s' % sk, 'exp2cxx fails on a valid schema: %s' % log[-500:], dict(files, **{'log.txt': log})))
         elif st in ('compile', 'link-lib'):
             found.append(('build|%s|%s' % (st, compile_error_class(log)), 'the emitted code does not compile (%s): %s' % (case.fail.get('src'), log[:700]),
@@ -267,6 +274,12 @@ def judge(chk, case, env):
     for key, what in c02_model.compare_instances(s, dump, chk):
         found.append((key, what, dfiles))
     chk.ev(len(dump['insts']))
+    # ---- attribute-dependent aggregate bounds evaluated for instances created through the registry
+    if getattr(s, 'rt_cases', None):
+        if dump['dict_ok']:
+            found.extend(c02_bounds.judge_runtime(chk, case, env, files))
+        else:
+            chk.count('attribute-dependent bounds not evaluated (dictionary dump failed)')
     # ---- the same names asked for the way an application / the Part 21 reader does
     if dump['dict_ok'] and not crashes:
         finds, reads, ids, lcrashes, p21text = run_lookup(case, env)
@@ -329,7 +342,10 @@ def main(chk):
     # identifier-shape matrix (fixed shapes + seeded identifiers) and attribute-flag matrix (fixed + seeded part)
     cases.append(Case(c02_extras.demask(c02_naming.naming_matrix(chk.seed)), 'extra'))
     cases.append(Case(c02_extras.demask(c02_flags.flags_matrix(chk.seed)), 'extra'))
+    cases.append(Case(c02_bounds.bounds_matrix(chk.seed), 'extra'))
     if not quick:
+        for i in range(10):
+            cases.append(Case(c02_bounds.bounds_matrix(chk.seed, 'xbr%d_%d' % (chk.seed, i), fixed=False, n_attr=24, n_cases=5), 'extra'))
         for i in range(8):
             cases.append(Case(c02_extras.demask(c02_naming.naming_matrix(chk.seed, 'xnr%d__%d' % (chk.seed, i), n_random=30, fixed=False)), 'extra'))
             cases.append(Case(c02_extras.demask(c02_flags.flags_matrix(chk.seed, 'xfr%d_%d' % (chk.seed, i), fixed=False, n_ent=5)), 'extra'))
@@ -370,13 +386,17 @@ def main(chk):
         chk.inconc('more than half of the schemas could not be built (%d of %d)' % (nfail, len(nonprobe)))
     return chk.finish(
         rule='schemas: %d from vf/gen_schema.corpus(seed) + naming/inheritance/type-zoo extras from vf/c02_extras.py + identifier-shape matrix (vf/c02_naming.py) + attribute-flag matrix (vf/c02_flags.py) '
-             '+ re-declaration matrices (vf/c02_redecl.py) + fixed probes; one evaluation = one compile, '
-             'one dictionary dump, one fresh instance, one look-up / creation / Part 21 read by declared name, or one mutator/accessor round trip; distinct_nontrivial = distinct (descriptor kind, checked field, '
+             '+ re-declaration matrices (vf/c02_redecl.py) + aggregate-bound matrix (vf/c02_bounds.py) + fixed probes; one evaluation = one compile, '
+             'one dictionary dump, one fresh instance, one look-up / creation / Part 21 read by declared name, one mutator/accessor round trip, or the run-time bounds of one aggregate level for one instance; distinct_nontrivial = distinct (descriptor kind, checked field, '
              'non-default model value) tuples compared (incl. (clause, unique, labelled?, joint?, optional?) of UNIQUE rules), distinct instance shapes, '
-             'distinct (kind of name, identifier shape) looked up / read by keyword, and distinct (accessor kind, inherited?) pairs' % n_corpus,
+             'distinct (kind of name, identifier shape) looked up / read by keyword, distinct (accessor kind, inherited?) pairs, distinct (attribute / defined type, aggregate kind, '
+             'lower bound kind, upper bound kind, nesting level) of aggregate bounds and distinct (aggregate kind, level, bound kinds, instance of a subtype?, same attribute twice?) '
+             'of bounds evaluated for an instance' % n_corpus,
         assumptions=['the schema model vf/model.py (all_attrs = Part 21 order) and its text rendering are correct',
                      'unbounded `?` is INT_MAX in the dictionary (LITERAL_INFINITY in src/express/expr.c; SdaiHeaderSchemaInit.cc); an absent bound specification may be left unset',
                      'subtypes are compared as a set (EXPRESS gives them no order); Description() strings are not compared',
+                     'a bound given by a CONSTANT, arithmetic or a function call: the dictionary holds the expression text (bound_funcall; compared without white space '
+                     'and case) or, where the value is known from the schema, the value; a bound SELF\\sup.attr is bound_runtime and evaluates to the value the instance holds',
                      'Unique() of an attribute descriptor: true iff a UNIQUE rule of the declaring / re-declaring entity names the attribute; a rule that '
                      'names an attribute the entity re-declares only as SELF\\sup.attr is not judged; rules of subtypes leave the descriptors of supertypes alone',
                      'look-up by declared name is judged only for names the registry iteration lists (a missing name is the set comparison\'s business); '
